@@ -86,4 +86,10 @@ mod harness {
     #[kani::proof] #[kani::unwind(6)] fn h_u3_m0() { check(3, 0, true, false); }
     #[kani::proof] #[kani::unwind(6)] fn h_u3_m1() { check(3, 1, false, true); }
     #[kani::proof] #[kani::unwind(6)] fn h_u4_m0() { check(4, 0, false, true); }
+    #[kani::proof] #[kani::unwind(6)] fn h_u1_m0() { check(1, 0, true, true); }
+    #[kani::proof] #[kani::unwind(6)] fn h_u2_m0() { check(2, 0, true, true); }
+    #[kani::proof] #[kani::unwind(6)] fn h_u2_m2() { check(2, 2, false, true); }
+    #[kani::proof] #[kani::unwind(6)] fn h_u3_m2() { check(3, 2, false, true); }
+    #[kani::proof] #[kani::unwind(6)] fn h_u4_m1() { check(4, 1, false, true); }
+    #[kani::proof] #[kani::unwind(6)] fn h_u4_m2() { check(4, 2, false, true); }
 }
